@@ -37,6 +37,7 @@ func main() {
 		Wall     float64           `json:"wall_s"`
 		Blocks   int               `json:"blocks"`
 		Cut      int               `json:"blocks_cut"`
+		Dropped  int64             `json:"distinct_dropped"`
 	}
 	if err := json.Unmarshal(b, &s); err != nil {
 		ev.InfraError("harness summary unreadable: %v", err)
@@ -57,6 +58,9 @@ func main() {
 	r.Set("bound_completed", s.Bound)
 	r.Set("harness_wall_s", s.Wall)
 	r.Set("blocks", s.Blocks)
+	if s.Dropped > 0 {
+		r.Set("distinct_not_recorded_over_cap", s.Dropped)
+	}
 	if s.Cut > 0 {
 		r.NotExhaustive(fmt.Sprintf("time slice reached: %d of %d blocks (a block = one members/partition-counts/subscriptions/racks combination with all its priors) were not run; %d inputs were", s.Cut, s.Blocks, s.Evals))
 	}
